@@ -11,7 +11,7 @@ import traceback
 import numpy
 
 import collada
-from collada import asset, camera, geometry, light, material, scene, source
+from collada import asset, camera, geometry, light, lineset, material, polygons, polylist, scene, source, triangleset
 
 
 def f32(xs):
@@ -206,6 +206,16 @@ def all_nodes(m):
     return out
 
 
+SHADER_PROPS = {
+    'phong': ['emission', 'ambient', 'diffuse', 'specular', 'shininess', 'reflective', 'reflectivity', 'transparent',
+              'transparency', 'index_of_refraction'],
+    'lambert': ['emission', 'ambient', 'diffuse', 'reflective', 'reflectivity', 'transparent', 'transparency',
+                'index_of_refraction'],
+    'constant': ['emission', 'reflective', 'reflectivity', 'transparent', 'transparency', 'index_of_refraction'],
+}
+SHADER_PROPS['blinn'] = SHADER_PROPS['phong']
+FLOAT_PROPS = ('shininess', 'reflectivity', 'transparency', 'index_of_refraction')
+
 CHILD_RANK = {scene.CameraNode: 0, scene.ControllerNode: 1, scene.GeometryNode: 2, scene.LightNode: 3,
               scene.NodeNode: 4, scene.Node: 5, scene.ExtraNode: 6}
 
@@ -319,6 +329,42 @@ def apply_op(b, op, nodes_by_id, docs):
                 g.primitives.append(g.createPolylist(idx, numpy.array([3] * npr, dtype=numpy.int32), il, op[5]))
             else:
                 g.primitives.append(g.createPolygons([idx[i * 3 * stride:(i + 1) * 3 * stride] for i in range(npr)], il, op[5]))
+    elif k == 'swap_positions':
+        # rebuild every primitive of a geometry on a NEW positions source (the <vertices> element
+        # was made for another one)
+        gs = [g for g in m.geometries if g.primitives]
+        if gs:
+            g = gs[op[1] % len(gs)]
+            need = 1
+            for p in g.primitives:
+                if p.index is not None and p.index.size and p.sources.get('VERTEX'):
+                    off = p.sources['VERTEX'][0][0]
+                    need = max(need, int(numpy.array(p.index).reshape(-1, p.nindices)[:, off].max()) + 1)
+            s = source.FloatSource(op[2], f32([float(i % 5) for i in range(need * 3)]), ('X', 'Y', 'Z'))
+            g.sourceById[s.id] = s
+            newprims = []
+            for p in g.primitives:
+                il = source.InputList()
+                for lst in p.sources.values():
+                    for (off, sem, src, st, _obj) in lst:
+                        if sem in source.InputList.semantics:
+                            il.addInput(off, sem, '#' + s.id if sem == 'VERTEX' else src, st)
+                idx = numpy.array(p.index).reshape(-1).copy()
+                if isinstance(p, polygons.Polygons):
+                    polys, pos = [], 0
+                    for vc in p.vcounts:
+                        polys.append(idx[pos:pos + int(vc) * p.nindices])
+                        pos += int(vc) * p.nindices
+                    newprims.append(g.createPolygons(polys, il, p.material))
+                elif isinstance(p, polylist.Polylist):
+                    newprims.append(g.createPolylist(idx, numpy.array(p.vcounts).copy(), il, p.material))
+                elif isinstance(p, triangleset.TriangleSet):
+                    newprims.append(g.createTriangleSet(idx, il, p.material))
+                elif isinstance(p, lineset.LineSet):
+                    newprims.append(g.createLineSet(idx, il, p.material))
+                else:
+                    newprims.append(p)
+            g.primitives[:] = newprims
     elif k == 'del_prim':
         gs = [g for g in m.geometries if g.primitives]
         if gs:
@@ -328,9 +374,12 @@ def apply_op(b, op, nodes_by_id, docs):
         if len(m.geometries):
             m.geometries[op[1] % len(m.geometries)].double_sided = bool(op[2])
     elif k == 'effect_set':
+        # op = [k, effect index, property index (among those of the effect's shader), colour-kind value, float value]
         if len(m.effects):
             e = m.effects[op[1] % len(m.effects)]
-            v = op[3]
+            props = SHADER_PROPS.get(e.shadingtype, SHADER_PROPS['phong'])
+            prop = props[op[2] % len(props)]
+            v = op[4] if prop in FLOAT_PROPS else op[3]
             if v is not None and v[0] == 'map':
                 smp = [p for p in e.params if isinstance(p, material.Sampler2D)]
                 if not smp:
@@ -338,7 +387,7 @@ def apply_op(b, op, nodes_by_id, docs):
                 v = material.Map(smp[v[1] % len(smp)], v[2])
             elif v is not None:
                 v = tuple(v[1]) if v[0] == 'color' else float(v[1])
-            setattr(e, op[2], v)
+            setattr(e, prop, v)
     elif k == 'effect_shader':
         if len(m.effects):
             e = m.effects[op[1] % len(m.effects)]
